@@ -268,7 +268,7 @@ CLAIMED["C10"] = {
             "program, a syntax error or 'outside the model'. Obligations over regenerated tables: token rule order, regex texts, "
             "t_ignore; grammar size and automaton. (2) LAYOUT IRRELEVANCE (C10_layout_irrelevance, C10_same_denotation): for EVERY "
             "surface program - quoted strings with either quote character and any escapes, integers and decimals in any spelling "
-            "the token rules accept, unquoted identifiers, unquoted text of several tokens (paths, words, numerals inside), lists at any nesting, dictionaries with quoted or unquoted keys (as an argument's value or as a list element at any depth), unquoted text with colons as an argument's value (C:\\data\\in.csv), and argument lists, with or "
+            "the token rules accept, unquoted identifiers, unquoted text of several tokens (paths, words, numerals inside), lists at any nesting, dictionaries with quoted or unquoted keys (as an argument's value or as a list element at any depth), unquoted text with colons as an argument's or a pair's value (C:\\data\\in.csv), and argument lists, with or "
             "without trailing commas, commands in the Result = Command(...) or the EEMS 2.0 COMMAND(...) form - and ANY gaps (blanks, tabs, LF/CR/CRLF line breaks, blank lines, comments, a final comment "
             "without line break) before, between and after its tokens, the text parses to a program of the right version with the same "
             "commands, names and, for every argument, the denotation of what was written; two renderings with the same denotation "
@@ -276,11 +276,11 @@ CLAIMED["C10"] = {
             "(STRING self-delimiting, INT/FLOAT/ID delimited by what may follow), simulation of the LALR automaton over the "
             "regenerated tables per syntactic category incl. the trailing-comma productions, and evaluation of the semantic "
             "actions; all hypotheses are computable booleans. The canonical layout of the serialiser is an instance for every "
-            "program (C15). PARTIAL: NOT proved for the few forms outside the surface family - unquoted text with colons as the value "
-            "of a tuple pair or inside a list - and for malformed input (mixed lists, corruptions); these are covered by differential runs only: random programs x layouts, corruptions, token soups, mixed lists, unquoted "
+            "program (C15). The family spans every production of the grammar. PARTIAL: NOT proved for renderings whose adjacent tokens are separated "
+            "only by the longest-match rule (1.5.2x: the boundary hypothesis is sufficient, not necessary) and for malformed input (mixed lists, corruptions); these are covered by differential runs only: random programs x layouts, corruptions, token soups, mixed lists, unquoted "
             "multi-word values, compared with the real parser node for node, line numbers included. The evidence counts how many "
             "accepted renderings are instances of the theorem (Coq re-assembles each text from its decomposition and evaluates the "
-            "hypotheses; 413 of 424 in the quick tier) and says why the others are not.",
+            "hypotheses; 418 of 424 in the quick tier, all 424 in the family by shape) and says why the others are not.",
     "note": PARSER_NOTE + " Code limitation modelled faithfully and not counted as a violation of well-formed renderings: unquoted "
             "multi-word values lose their blanks and re-print numerals (the renderer quotes such text). The simulation lemmas name "
             "the automaton's states by how they are reached, not by number, so a renumbering of PLY's tables leaves them intact; a "
